@@ -25,7 +25,7 @@ class EngineC14(HistEngine):
         ops = []
         for _ in range(n):
             k = ch.weighted([("insn", 10), ("stmt", w_stmt), ("fresh", w_fresh), ("new", w_new if len(insts) < 3 else 0),
-                             ("add_sub", 1), ("parse_err", fail_w // 2)], "opkind")
+                             ("add_sub", 1), ("parse_err", fail_w // 2), ("load", 1), ("loaded_insn", 2)], "opkind")
             if k == "new":
                 fmt = ch.choice(FMTS, "newfmt")
                 ops.append({"op": "new_compiler", "fmt": fmt})
@@ -37,6 +37,15 @@ class EngineC14(HistEngine):
                 ops.append(dict(s, op="add_sub", inst=inst))
                 if s["name"] != "vf_bad" and s["name"] not in subs:
                     subs.append(s["name"])
+                continue
+            if k == "load":
+                ops.append({"op": "load", "inst": inst})
+                continue
+            if k == "loaded_insn":
+                op = {"op": "loaded_insn", "inst": inst, "name": ch.choice(self.names, "lname")}
+                if ch.chance(p_fault, 10, "fault?"):
+                    op["fault"] = self.gen_fault(ch, insts[inst], op["name"], self.beh[op["name"]], tuple(subs))
+                ops.append(op)
                 continue
             if k == "parse_err":
                 ops.append({"op": "stmt", "inst": inst, "code": ch.choice(gen_beh.PARSE_ERRORS, "perr")})
@@ -109,8 +118,15 @@ class EngineC14(HistEngine):
                 continue
             inst = op.get("inst", 0) % len(insts)
             fmt = op["fmt"] if kind == "fresh" else insts[inst]
-            name = op["name"] if kind == "insn" else "stmt"
-            parts = op["parts"] if kind == "insn" else [op["code"]]
+            name = op["name"] if kind in ("insn", "loaded_insn") else "stmt"
+            if kind == "loaded_insn":
+                parts = list(self.beh[op["name"]])
+                got_parts = o.get("loaded_parts")
+                if o["status"] == "ok" and got_parts != parts:
+                    viol(step, "loader-parts", "", name=name, got=len(got_parts or []), want=len(parts))
+                    continue
+            else:
+                parts = op["parts"] if kind == "insn" else [op["code"]]
             fault = op.get("fault")
             if fault:
                 out.count("fault_armed")
@@ -137,7 +153,7 @@ class EngineC14(HistEngine):
             if ikey in seen_inputs and seen_inputs[ikey] != (inst, kind):
                 out.count("same_input_other_instance_or_entry")
             seen_inputs[ikey] = (inst, kind)
-            if kind == "insn" and len(parts) == 2:
+            if kind in ("insn", "loaded_insn") and len(parts) == 2:
                 out.count("compound_compared")
                 nontrivial_marks.add("compound")
             got_codes = [norm.normalise(p.get("code", ""), src) for p, src in zip(o.get("parts", []), parts)]
@@ -172,7 +188,7 @@ class EngineC14(HistEngine):
                                    ["-" + x.replace("HEX_IL_INSN_ATTR_", "") for x in wm - gm])
                         viol(step, "meta", ",".join(d), part=j, name=name, got=sorted(gm), want=sorted(wm))
                         break
-                if kind == "insn":
+                if kind in ("insn", "loaded_insn"):
                     if bool(o["needs_hi"][j]) != bool(r["needs_hi"]) or bool(o["needs_pkt"][j]) != bool(r["needs_pkt"]):
                         viol(step, "needs-flags", "", part=j, name=name)
                         break
